@@ -1,7 +1,19 @@
 PROPERTY = "C18"
 ENTRY = {
-        "text": "placeholder",
+        "text": "ScheduleCore.tla states the property as integer arithmetic written from the statement: zone = offset table, wall clock = instant + offset in effect, "
+                "in effect <=> wall-clock time of day on the wall-clock weekday in [start,end), plus the validation classes. "
+                "Schedule.tla is checked exhaustively by TLC on 16 abstract zone/day classes (UTC, +hh:30, +hh:45, -hh:30, DST north/south forward/back, half-hour DST step, "
+                "transitions at local midnight, skipped civil day) x 10 schedule shapes x every instant of a +-36 h window, with the statement's claims as invariants "
+                "(full day covers exactly the 23/24/25-hour local day, empty covers none, half-open interval on the wall clock, validation verdicts, round-trip identity). "
+                "ScheduleHost.tla evaluates the same operators on the integer offset tables of the host's real IANA zones (seeded sample in quick, every zone name in thorough; "
+                "ordinary, spring-forward, fall-back and midnight-transition days) at probe instants (half-hour grid, +-1 ns around every wall-clock range edge, local midnight and transition, "
+                "both occurrences of repeated times); every table row is replayed into the real schedule.Weekly (built through UnmarshalJSON/UnmarshalYAML) and a sample through "
+                "PUT /control/blocked_services/update + DNSFilter.ApplyAdditionalFiltering + CheckHost at that virtual time (synctest), global and per-client schedule; "
+                "6804 serialisation vectors go through both decoders/encoders (verdict + round trips). Random triples and random serialised schedules recorded from the real code are judged by TraceSchedule.tla.",
         "design_ref": "DESIGN.md section 4 C18",
-        "note": "placeholder",
-        "technique": "TLA+ spec enumerated by TLC; verdict tables replayed into real code + TLC trace validation",
+        "note": "Trusted: TLC; the host tz database as read by Go's time package (tables via Time.ZoneBounds, cross-checked per instant against Time.In(loc).Zone/Clock/Weekday); "
+                "conc()/projection of the two zz_verif_c18_test.go files. Instants 2000-01-05..2037-12-20. Instants are classes, not every nanosecond. "
+                "Statement-silent inputs (start = end # 0, ranges of <= 24h reaching past 24:00) admit both verdicts. "
+                "Open known finding: Contains uses elapsed time since local midnight (wrong on UTC-offset-transition days); fix proposed in proposed_fixes/.",
+        "technique": "TLA+ spec checked exhaustively by TLC on abstract classes; TLC verdict tables over real tz tables replayed into real code + TLC trace validation",
     }
